@@ -963,26 +963,43 @@ theorem catCtor_nodebug_counterexample :
     catCtor false [[3, 3], [2, 4]] 0 = .ok [5, 3] ∧ catShape? [[3, 3], [2, 4]] 0 = none :=
   Ext.catCtor_nodebug_counterexample
 
-/-- **`cat_rows` on a SQUARE operator (debug on; cross / new matrices of the operator's rank, every batch rank and size)
-accepts exactly the `cross_mat`, `new_mat` for which the dense block matrix `[[A, Bᵀ], [B, D]]` exists, with its shape.**
+/-- **`cat_rows` (debug on; the code after 6da5c17: `is_square` guard, then the three concatenations; ANY operator, also
+rectangular; cross / new matrices of the operator's rank, every batch rank and size) accepts exactly the `cross_mat`, `new_mat`
+for which the dense block matrix `[[A, Bᵀ], [B, D]]` exists, with its shape.**
 Full statement (not proved): the same for every rank combination, i.e. including the branch that first expands `self` to the
 broadcast batch shape when `cross_mat` has more dimensions, and the rank-mismatch rejections (swept by the harness, cells
-`cat_rows/extra-batch-*`, `batch-missing`, `cross-1d`, `new-1d`).  For RECTANGULAR operators the statement is false:
-`catRows_rect_counterexample`. -/
-theorem catRows_iff_torch_partial (A C W : List Nat) (n o n' o1 o2 : Nat) (hC : C.length = A.length)
+`cat_rows/extra-batch-*`, `batch-missing`, `cross-1d`, `new-1d`). -/
+theorem catRows_iff_torch_partial (A C W : List Nat) (m n o n' o1 o2 : Nat) (hC : C.length = A.length)
     (hW : W.length = A.length) (s : List Nat) :
-    catRows (A ++ [n, n]) (C ++ [o, n']) (W ++ [o1, o2]) = .ok s ↔
-      catRowsShape? (A ++ [n, n]) (C ++ [o, n']) (W ++ [o1, o2]) = some s :=
-  Ext.catRows_square_same_rank_iff A C W n o n' o1 o2 hC hW s
+    catRows (A ++ [m, n]) (C ++ [o, n']) (W ++ [o1, o2]) = .ok s ↔
+      catRowsShape? (A ++ [m, n]) (C ++ [o, n']) (W ++ [o1, o2]) = some s :=
+  Ext.catRows_same_rank_iff A C W m n o n' o1 o2 hC hW s
 
 example : catRows [2, 3, 3] [2, 2, 3] [2, 2, 2] = .ok [2, 5, 5] := by decide
 
-/-- **Defect [F13]**: `cat_rows` never checks that the operator is square.  A 4×3 operator with `cross_mat` 2×3 and a
-compensating `new_mat` 3×2 passes all three CatLinearOperator checks (`[A; B]` is 6×3, `[Bᵀ; D]` is 6×2) and yields a 6×5
-operator that is not the block matrix (torch refuses `[[A, Bᵀ], [B, D]]`: `A` has 4 rows, `Bᵀ` has 3). -/
+/-- **Regression statement about the PREVIOUS code (before 6da5c17, defect F13)**: without the `is_square` guard a 4×3
+operator with `cross_mat` 2×3 and a compensating `new_mat` 3×2 passed all three CatLinearOperator checks (`[A; B]` is 6×3,
+`[Bᵀ; D]` is 6×2) and yielded a 6×5 operator that is not the block matrix (torch refuses `[[A, Bᵀ], [B, D]]`); the guarded
+`cat_rows` answers `notSquare`. -/
 theorem catRows_rect_counterexample :
-    catRows [4, 3] [2, 3] [3, 2] = .ok [6, 5] ∧ catRowsShape? [4, 3] [2, 3] [3, 2] = none :=
+    catRowsUnguarded [4, 3] [2, 3] [3, 2] = .ok [6, 5] ∧ catRowsShape? [4, 3] [2, 3] [3, 2] = none ∧
+    catRows [4, 3] [2, 3] [3, 2] = .error .notSquare :=
   Ext.catRows_rect_counterexample
+
+/-- **`__getitem__` raises "too many indices" exactly when torch does** (716435a): for an operator of any rank and any
+None-free index tuple of ints, slices, integer tensors and at most one ellipsis, the length test after the ellipsis expansion
+and the padding fires iff the tuple has more non-ellipsis entries than the operator has dimensions. -/
+theorem tooManyIndices_iff_torch (ndim : Nat) (idx : List Idx) (h : idx.count .ellipsis ≤ 1) :
+    indexCountGuard ndim idx = .error .index ↔ tooManyIndices ndim idx = true :=
+  Ext.tooManyIndices_iff_torch ndim idx h
+
+example : indexCountGuard 2 [.int, .int, .int] = .error .index := by decide
+example : indexCountGuard 3 [.int, .ellipsis, .int, .slice] = .ok () := by decide
+example : indexCountGuard 3 [.ellipsis, .int, .tensor, .int, .slice] = .error .index := by decide
+
+/-- before 716435a no length test existed (`zip(index, shape)` dropped the surplus: `Dense(3×3)[0, 1, 2]` was a scalar) -/
+theorem indexCountUnguarded_counterexample :
+    indexCountUnguarded 2 [.int, .int, .int] = .ok () ∧ tooManyIndices 2 [.int, .int, .int] = true := by decide
 
 /-- `cat_rows` (debug on): examples of the three constructor checks against the dense block matrix. -/
 theorem catRows_examples :
